@@ -8,9 +8,10 @@ import re
 import struct
 
 from ..core import Ctx
-from ..match import arg, call_name, calls, local_defs, resolve, single_def, stores
-from ..model import NOCONST, AnalysisError, ClassInfo, FuncInfo, ancestors, chain, const_value, enclosing_stmt, norm, parent, strip_cast, walk_no_nested
-from ..terms import Const, Field, PureFn, T, TermEval, Undecided, is_const, simplify, struct_arity
+from ..match import arg
+from ..model import NOCONST, AnalysisError, ClassInfo, FuncInfo, chain, const_value, norm, strip_cast, walk_no_nested
+from .c02_packers import Mini, MiniRaised, MiniUndecided, Opaque, struct_hooks
+from ..terms import Const, Field, T, TermEval, Undecided, is_const, simplify, struct_arity
 
 LEVEL = "other"
 EXPLANATION = (
@@ -21,9 +22,13 @@ EXPLANATION = (
     "selectors and the documented connection-type domain); the format sequence of to_pack_list equals format_list. Every "
     "VariablePayload definition has names/format arity agreement, raw only last, registered formats, paired hooks. Every "
     "Packer is abstractly run: the bytes read by unpack tile [offset, returned offset) exactly and pack writes the same "
-    "layout (same length format and unit). Registered format names agree with the grammar their name spells and with the "
-    "byte counts of doc/reference/serialization.rst. Bit masks agree on both sides; the cell codec agrees on format and "
-    "offsets. Values of struct/inet_* are trusted stdlib semantics."
+    "layout (same length format and unit; wire values are named by the read they come from, not by the local that holds them); "
+    "per address tag the decoder reads the layout and uses the inet_* partner of the pack branch that writes the tag. "
+    "Registered format names agree with the grammar their name spells and with the byte counts of "
+    "doc/reference/serialization.rst. Bits.pack/unpack and the cell codec (CellPayload.to_bin/from_bin/unwrap, "
+    "TunnelCommunity.send_cell) are decided by evaluating their AST with a small interpreter on the whole finite domain "
+    "(256 bytes) / on sample cells covering every flag combination, so only what they compute counts, not its spelling. "
+    "Values of struct/inet_* are trusted stdlib semantics."
 )
 
 SER = "ipv8/messaging/serialization.py"
@@ -72,49 +77,197 @@ def struct_values(table: dict[str, ast.Call], fmt: str) -> int:
 
 
 # ------------------------------------------------------------------------------------------ TERM rule
+class _TermEval(TermEval):
+    """TermEval + element-wise struct decoding of a joined byte string: list(iter_unpack(F, X)) = chunks of calcsize(F) decoded field by field."""
+
+    def ev(self, e: ast.AST) -> T:
+        e0 = strip_cast(e)
+        if isinstance(e0, ast.Call) and chain(e0.func) in ("list", "tuple") and len(e0.args) == 1 and not e0.keywords:
+            inner = strip_cast(e0.args[0])
+            if isinstance(inner, ast.Call) and chain(inner.func) in ("iter_unpack", "struct.iter_unpack") and len(inner.args) == 2 and chain(e0.func) == "list":
+                fmt = const_value(inner.args[0])
+                if isinstance(fmt, str):
+                    try:
+                        lay = _struct_field_layout(fmt)
+                        size = struct.calcsize(fmt)
+                    except struct.error as ex:
+                        raise Undecided(f"struct format {fmt!r}") from ex
+                    prefix = fmt[0] if fmt[0] in "<>!=@" else ""
+                    pieces = tuple((off, off + sz, "bytes" if code == "s" else f"unpack:{prefix}{code}") for off, sz, code in lay)
+                    # every element is the tuple of all fields (iter_unpack yields tuples)
+                    return simplify(T("chunks", (self.ev(inner.args[1]), Const(size), Const(pieces))))
+        if isinstance(e0, ast.UnaryOp) and isinstance(e0.op, ast.Not):
+            return T("not", (self.ev(e0.operand),))
+        if isinstance(e0, ast.BinOp) and isinstance(e0.op, ast.BitAnd):
+            for x, m in ((e0.left, e0.right), (e0.right, e0.left)):
+                mask = self.repo.resolve_const(self.fi.module, m, self.fi.cls)
+                if isinstance(mask, int) and not isinstance(mask, bool) and mask > 0 and (mask & (mask + 1)) == 0:
+                    return simplify(T("mod", (self.ev(x), Const(mask + 1))))        # x & (2**k - 1) == x % 2**k for every int x
+        return super().ev(e)
+
+    def _listcomp(self, e: ast.ListComp, g: ast.comprehension) -> T:
+        # [x for x in Y] = list(Y)
+        if isinstance(g.target, ast.Name) and isinstance(e.elt, ast.Name) and e.elt.id == g.target.id:
+            fake = ast.Call(func=ast.Name(id="list", ctx=ast.Load()), args=[g.iter], keywords=[])
+            return self.ev(ast.copy_location(fake, e))
+        return super()._listcomp(e, g)
+
+
+def _decode_ctor(ev: TermEval, fi: FuncInfo) -> tuple[ast.Call, list[T], dict[str, T]]:
+    """
+    from_unpack_list as straight-line code: locals are bound in order; the result is ONE constructor call, returned directly or through a
+    local (`p = cls(..); return p`).  Gives (call, positional argument terms, keyword argument terms), evaluated where the call stands.
+    """
+    held: dict[str, tuple] = {}
+
+    def ctor(v: ast.AST):
+        v = strip_cast(v)
+        if isinstance(v, ast.Name) and v.id in held:
+            return held[v.id]
+        if isinstance(v, ast.Call) and not any(isinstance(a, ast.Starred) for a in v.args) and all(k.arg is not None for k in v.keywords) \
+                and (chain(v.func) == "cls" or ev.repo.resolve_class_expr(fi.module, v.func) is not None):
+            return v, [ev.ev(a) for a in v.args], {k.arg: ev.ev(k.value) for k in v.keywords}
+        return None
+    for st in fi.node.body:
+        if (isinstance(st, ast.Expr) and isinstance(st.value, ast.Constant)) or isinstance(st, ast.Pass):
+            continue
+        if isinstance(st, (ast.Assign, ast.AnnAssign)) and st.value is not None:
+            tgts = st.targets if isinstance(st, ast.Assign) else [st.target]
+            c = ctor(st.value) if len(tgts) == 1 and isinstance(tgts[0], ast.Name) else None
+            if c is not None:
+                held[tgts[0].id] = c
+                continue
+            val = ev.ev(st.value)
+            for t in tgts:
+                _bind_target(ev, t, val)
+                for nm in ast.walk(t):
+                    if isinstance(nm, ast.Name):
+                        held.pop(nm.id, None)
+            continue
+        if isinstance(st, ast.Return) and st.value is not None:
+            c = ctor(st.value)
+            if c is None:
+                raise Undecided("from_unpack_list does not return a constructor call")
+            return c
+        raise Undecided(f"statement `{norm(st)[:60]}` in from_unpack_list")
+    raise Undecided("from_unpack_list has no return")
+
+
+def _bind_target(ev: TermEval, tgt: ast.AST, val: T) -> None:
+    """`name = val` / `a, b = val` (element i of a tuple-valued term is index(val, i), simplified when val is a literal tuple)."""
+    if isinstance(tgt, ast.Name):
+        ev.env[tgt.id] = val
+        return
+    if isinstance(tgt, (ast.Tuple, ast.List)) and not any(isinstance(e, ast.Starred) for e in tgt.elts):
+        if val.op in ("tuple", "list") and len(val.args) != len(tgt.elts):
+            raise Undecided(f"unpacking {len(val.args)} values into {len(tgt.elts)} targets")
+        for i, e in enumerate(tgt.elts):
+            _bind_target(ev, e, simplify(T("index", (val, Const(i)))))
+        return
+    raise Undecided(f"assignment target `{norm(tgt)[:40]}`")
+
+
+def _pack_entry(ev: TermEval, e: ast.AST) -> tuple[str, list[T]]:
+    """One element of a pack list, written as a tuple literal or held in a local: (format name, value terms)."""
+    t = ev.ev(e)
+    if t.op != "tuple" or not t.args or not is_const(t.args[0]) or not isinstance(t.args[0].args[0], str):
+        raise Undecided(f"pack list element `{norm(e)[:50]}`")
+    return t.args[0].args[0], list(t.args[1:])
+
+
 def eval_to_pack_list(ctx: Ctx, cls: ClassInfo, depth: int = 0) -> list[tuple[str, list[T]]]:
     """[(format, [value terms over Field(..)])] of cls.to_pack_list (following super().to_pack_list())."""
     fi = cls.lookup("to_pack_list")
     if fi is None or depth > 3:
         raise Undecided("no to_pack_list")
     owner = fi.cls
-    ev = TermEval(ctx.repo, fi, {})
-    lst: list | None = None
+    ev = _TermEval(ctx.repo, fi, {})
+    lists: dict[str, list] = {}          # locals that hold a pack list under construction
+
+    def is_super_call(v: ast.AST) -> bool:
+        return isinstance(v, ast.Call) and isinstance(v.func, ast.Attribute) and v.func.attr == "to_pack_list" and isinstance(v.func.value, ast.Call) \
+            and chain(v.func.value.func) == "super"
+
+    def list_value(v: ast.AST) -> list | None:
+        """The pack list an expression denotes (list literal, super().to_pack_list(), a tracked local, a + b), else None."""
+        v = strip_cast(v)
+        if is_super_call(v):
+            base = next((k for k in owner.mro()[1:] if "to_pack_list" in k.methods), None)
+            if base is None:
+                raise Undecided("super().to_pack_list() without base")
+            return eval_to_pack_list(ctx, base, depth + 1)
+        if isinstance(v, ast.Name) and v.id in lists:
+            return lists[v.id]
+        if isinstance(v, ast.List) and (not v.elts or not isinstance(v.elts[0], ast.Starred)):
+            out = []
+            for x in v.elts:
+                if isinstance(x, ast.Starred):
+                    sub = list_value(x.value)
+                    if sub is None:
+                        raise Undecided("starred pack list element")
+                    out.extend(sub)
+                else:
+                    try:
+                        out.append(_pack_entry(ev, x))
+                    except Undecided:
+                        return None          # some other list, not a pack list
+            return out
+        if isinstance(v, ast.BinOp) and isinstance(v.op, ast.Add):
+            l, r = list_value(v.left), list_value(v.right)
+            if l is not None and r is not None:
+                return list(l) + list(r)
+        if isinstance(v, ast.Call) and chain(v.func) == "list" and len(v.args) == 1:
+            sub = list_value(v.args[0])
+            return list(sub) if sub is not None else None
+        return None
     for st in fi.node.body:
         if isinstance(st, ast.Expr) and isinstance(st.value, ast.Constant):
             continue
-        if isinstance(st, ast.Assign) and isinstance(st.targets[0], ast.Name):
-            v = strip_cast(st.value)
-            if isinstance(v, ast.Call) and isinstance(v.func, ast.Attribute) and v.func.attr == "to_pack_list" and isinstance(v.func.value, ast.Call) and chain(v.func.value.func) == "super":
-                base = next((k for k in owner.mro()[1:] if "to_pack_list" in k.methods), None)
-                if base is None:
-                    raise Undecided("super().to_pack_list() without base")
-                lst = eval_to_pack_list(ctx, base, depth + 1)
-                ev.env[st.targets[0].id] = T("packlist", ())
-                listvar = st.targets[0].id
+        if isinstance(st, ast.Pass):
+            continue
+        if isinstance(st, (ast.Assign, ast.AnnAssign)) and st.value is not None:
+            tgts = st.targets if isinstance(st, ast.Assign) else [st.target]
+            if len(tgts) == 1 and isinstance(tgts[0], ast.Name):
+                lv = list_value(st.value)
+                if lv is not None:
+                    # a fresh list object unless it aliases a tracked one (then both names denote the same list)
+                    lists[tgts[0].id] = lv if isinstance(strip_cast(st.value), ast.Name) else list(lv)
+                    ev.env[tgts[0].id] = T("packlist", ())
+                    continue
+            val = ev.ev(st.value)
+            for t in tgts:
+                _bind_target(ev, t, val)
+                for nm in ast.walk(t):
+                    if isinstance(nm, ast.Name):
+                        lists.pop(nm.id, None)
+            continue
+        if isinstance(st, ast.AugAssign) and isinstance(st.op, ast.Add) and isinstance(st.target, ast.Name) and st.target.id in lists:
+            more = list_value(st.value)
+            if more is None:
+                raise Undecided("`+=` on pack list")
+            lists[st.target.id].extend(more)
+            continue
+        if isinstance(st, ast.Expr) and isinstance(st.value, ast.Call) and isinstance(st.value.func, ast.Attribute) and isinstance(st.value.func.value, ast.Name) \
+                and st.value.func.value.id in lists and not st.value.keywords:
+            lst, meth, args = lists[st.value.func.value.id], st.value.func.attr, st.value.args
+            if meth == "insert" and len(args) == 2:
+                pos = const_value(args[0])
+                if not isinstance(pos, int) or isinstance(pos, bool):
+                    raise Undecided("insert into pack list")
+                lst.insert(pos, _pack_entry(ev, args[1]))
                 continue
-            ev.env[st.targets[0].id] = ev.ev(st.value)
-            continue
-        if isinstance(st, ast.Expr) and isinstance(st.value, ast.Call) and call_name(st.value) == "insert" and lst is not None:
-            pos = const_value(st.value.args[0])
-            tup = st.value.args[1]
-            if not isinstance(pos, int) or not isinstance(tup, ast.Tuple):
-                raise Undecided("insert into pack list")
-            lst.insert(pos, (const_value(tup.elts[0]), [ev.ev(x) for x in tup.elts[1:]]))
-            continue
-        if isinstance(st, ast.Expr) and isinstance(st.value, ast.Call) and call_name(st.value) == "append" and lst is not None:
-            tup = st.value.args[0]
-            lst.append((const_value(tup.elts[0]), [ev.ev(x) for x in tup.elts[1:]]))
-            continue
-        if isinstance(st, ast.Return):
-            if lst is not None and isinstance(st.value, ast.Name):
-                return lst
-            if isinstance(st.value, ast.List):
-                out = []
-                for tup in st.value.elts:
-                    if not isinstance(tup, ast.Tuple) or not isinstance(const_value(tup.elts[0]), str):
-                        raise Undecided("pack list element")
-                    out.append((const_value(tup.elts[0]), [ev.ev(x) for x in tup.elts[1:]]))
+            if meth == "append" and len(args) == 1:
+                lst.append(_pack_entry(ev, args[0]))
+                continue
+            if meth == "extend" and len(args) == 1:
+                more = list_value(args[0])
+                if more is None:
+                    raise Undecided("extend of pack list")
+                lst.extend(more)
+                continue
+        if isinstance(st, ast.Return) and st.value is not None:
+            out = list_value(st.value)
+            if out is not None:
                 return out
         raise Undecided(f"statement `{norm(st)[:60]}` in to_pack_list")
     raise Undecided("no return in to_pack_list")
@@ -129,7 +282,7 @@ def init_fields(ctx: Ctx, cls: ClassInfo, args: list[T], kwargs: dict[str, T], d
     params = [p.arg for p in a.args][1:]
     defaults = dict(zip(params[len(params) - len(a.defaults):], a.defaults))
     env: dict[str, T] = {}
-    tmp = TermEval(ctx.repo, fi, {})
+    tmp = _TermEval(ctx.repo, fi, {})
     for i, p in enumerate(params):
         if i < len(args):
             env[p] = args[i]
@@ -140,7 +293,7 @@ def init_fields(ctx: Ctx, cls: ClassInfo, args: list[T], kwargs: dict[str, T], d
         else:
             raise Undecided(f"missing constructor argument {p}")
     fields: dict[str, T] = {}
-    ev = TermEval(ctx.repo, fi, env, fields)
+    ev = _TermEval(ctx.repo, fi, env, fields)
     for st in fi.node.body:
         if isinstance(st, ast.Expr) and isinstance(st.value, ast.Constant):
             continue
@@ -152,15 +305,30 @@ def init_fields(ctx: Ctx, cls: ClassInfo, args: list[T], kwargs: dict[str, T], d
                     fields.update(init_fields(ctx, base, [ev.ev(x) for x in c.args], {k.arg: ev.ev(k.value) for k in c.keywords}, depth + 1))
                 continue
             raise Undecided(f"call `{norm(st)[:50]}` in __init__")
-        if isinstance(st, ast.Assign) and len(st.targets) == 1 and chain(st.targets[0]) and chain(st.targets[0]).startswith("self.") and chain(st.targets[0]).count(".") == 1:
-            fields[st.targets[0].attr] = ev.ev(st.value)
+        if isinstance(st, ast.Pass):
             continue
+        if isinstance(st, (ast.Assign, ast.AnnAssign)) and st.value is not None:
+            tgts = st.targets if isinstance(st, ast.Assign) else [st.target]
+            val = ev.ev(st.value)
+            done = True
+            for t in tgts:
+                if isinstance(t, ast.Attribute) and isinstance(t.value, ast.Name) and t.value.id == "self":
+                    fields[t.attr] = val
+                elif isinstance(t, (ast.Name, ast.Tuple, ast.List)) and all(isinstance(x, (ast.Name, ast.Tuple, ast.List)) for x in ast.walk(t) if isinstance(x, ast.expr) and not isinstance(x, ast.expr_context)):
+                    _bind_target(ev, t, val)         # a local of the constructor
+                else:
+                    done = False
+            if done:
+                continue
         raise Undecided(f"statement `{norm(st)[:50]}` in __init__")
     return fields
 
 
 def normalise(ctx: Ctx, cls: ClassInfo, t: T, init_of_field) -> T:
     """Rewrites valid under the stated domain assumptions; returns Field(x) when t reconstructs field x."""
+    # (x % n) % n == x % n
+    while t.op == "mod" and is_const(t.args[1]) and t.args[0].op == "mod" and t.args[0].args[1] == t.args[1] and isinstance(t.args[1].args[0], int) and t.args[1].args[0] > 0:
+        t = t.args[0]
     # mod 65536 on a field whose constructor already stores it mod 65536
     if t.op == "mod" and is_const(t.args[1]) and t.args[0].op == "field":
         f = t.args[0].args[0]
@@ -189,30 +357,39 @@ def normalise(ctx: Ctx, cls: ClassInfo, t: T, init_of_field) -> T:
                             ok = False
                         if code == "s" and dec != "bytes":
                             ok = False
-                        if code != "s" and dec != f"unpack:{fmt[0] if fmt[0] in '<>!=@' else ''}{code}":
+                        if code != "s" and _canon_dec(dec) != _canon_dec(f"unpack:{fmt[0] if fmt[0] in '<>!=@' else ''}{code}"):
                             ok = False
                     if ok:
                         return over
     return t
 
 
+def _canon_dec(dec: str) -> str:
+    """'unpack:<fmt>' with the byte-order prefix made explicit and canonical ('!' = '>', no prefix = '@' native)."""
+    if not dec.startswith("unpack:"):
+        return dec
+    f = dec[len("unpack:"):]
+    prefix, body = (f[0], f[1:]) if f[:1] in "<>!=@" else ("@", f)
+    return "unpack:" + {"!": ">"}.get(prefix, prefix) + body
+
+
 def _struct_field_layout(fmt: str):
-    """[(offset, size, code)] of a simple struct format like '>20sI'."""
+    """[(offset, size, code)] of a simple struct format like '>20sI' (native formats: offsets include the alignment padding)."""
     prefix = fmt[0] if fmt[0] in "<>!=@" else ""
     body = fmt[len(prefix):]
     out = []
-    off = 0
+    sofar = ""
     for m in re.finditer(r"(\d*)([a-zA-Z?])", body):
         cnt, code = m.group(1), m.group(2)
-        if code == "s":
-            size = int(cnt or 1)
-            out.append((off, size, "s"))
-            off += size
-        else:
-            for _ in range(int(cnt or 1)):
-                size = struct.calcsize(prefix + code)
-                out.append((off, size, code))
-                off += size
+        items = [cnt + "s"] if code in "sp" else [code] * int(cnt or 1)
+        for it in items:
+            if code == "x":
+                sofar += it
+                continue
+            size = struct.calcsize(prefix + it)
+            sofar += it
+            end = struct.calcsize(prefix + sofar)
+            out.append((end - size, size, "s" if code in "sp" else code))
     return out
 
 
@@ -243,7 +420,66 @@ def definitely_different(t: T, f: str) -> str | None:
                 return f"elements are packed with '{fmt}' ({size} bytes) but decoded with a stride of {n}"
             if [p[:2] for p in ps] != lay:
                 return f"elements are packed with '{fmt}' (field byte ranges {lay}) but decoded from ranges {[p[:2] for p in ps]}"
+            prefix = fmt[0] if fmt[0] in "<>!=@" else ""
+            for (o, s_, code), (lo, hi, dec) in zip(_struct_field_layout(fmt), ps):
+                want = "bytes" if code == "s" else f"unpack:{prefix}{code}"
+                if dec.startswith("unpack:") and code != "s" and _canon_dec(dec) != _canon_dec(want):
+                    return (f"elements are packed with '{fmt}' but bytes {lo}..{hi} of each element are decoded with '{dec[len('unpack:'):]}' "
+                            f"(other byte order / native size than '{prefix}{code}'): every value that is not a byte palindrome comes back changed")
+                if (dec == "bytes") != (code == "s"):
+                    return f"elements are packed with '{fmt}' but bytes {lo}..{hi} of each element are decoded as {dec}"
     return None
+
+
+def _bit_leaves(t) -> set | None:
+    """Fields whose wire bit the term reads, if the term is built from such bits and constants only; else None."""
+    if not isinstance(t, T):
+        return set()
+    if t.op == "const":
+        return set()
+    if t.op == "bitwire":
+        x = t.args[0]
+        return {x.args[0]} if x.op == "field" else (set() if x.op == "const" else None)
+    if t.op in ("bool", "not", "index", "list", "tuple", "ifexp", "cmp"):
+        out: set = set()
+        for a in t.args:
+            if isinstance(a, str):
+                continue
+            sub = _bit_leaves(a)
+            if sub is None:
+                return None
+            out |= sub
+        return out
+    return None
+
+
+def _eval_bit_term(t, bits: dict):
+    if t.op == "const":
+        return t.args[0]
+    if t.op == "bitwire":
+        x = t.args[0]
+        return bits[x.args[0]] if x.op == "field" else (1 if x.args[0] else 0)
+    if t.op == "bool":
+        return bool(_eval_bit_term(t.args[0], bits))
+    if t.op == "not":
+        return not _eval_bit_term(t.args[0], bits)
+    if t.op in ("list", "tuple"):
+        vals = [_eval_bit_term(a, bits) for a in t.args]
+        return vals if t.op == "list" else tuple(vals)
+    if t.op == "ifexp":
+        return _eval_bit_term(t.args[1] if _eval_bit_term(t.args[0], bits) else t.args[2], bits)
+    try:
+        if t.op == "index":
+            return _eval_bit_term(t.args[0], bits)[_eval_bit_term(t.args[1], bits)]
+        if t.op == "cmp":
+            import operator as _o
+            ops = {"Eq": _o.eq, "NotEq": _o.ne, "Lt": _o.lt, "LtE": _o.le, "Gt": _o.gt, "GtE": _o.ge, "Is": _o.is_, "IsNot": _o.is_not,
+                   "In": lambda a, b: a in b, "NotIn": lambda a, b: a not in b}
+            if t.args[0] in ops:
+                return ops[t.args[0]](_eval_bit_term(t.args[1], bits), _eval_bit_term(t.args[2], bits))
+    except (TypeError, IndexError, KeyError) as e:
+        raise Undecided(f"bit expression {t}: {type(e).__name__}") from e
+    raise Undecided(f"bit expression {t}")
 
 
 def enumerate_equal(ctx: Ctx, cls: ClassInfo, t: T, want_field: str, wire_terms: dict[int, T]) -> tuple[bool, str] | None:
@@ -263,6 +499,13 @@ def enumerate_equal(ctx: Ctx, cls: ClassInfo, t: T, want_field: str, wire_terms:
         return t.args[0].args[0].args[0] == want_field, "bool(bit)"
     if bit_source(t):
         return t.args[0].args[0] == want_field, "bit passed through"
+    # any other expression over wire bits only (`bit == 1`, `True if bit else False`, `not not bit`, ...): both values of the bit are tried
+    leaves = _bit_leaves(t)
+    if leaves:
+        if leaves != {want_field}:
+            return False, f"computed from the wire bit(s) of {sorted(leaves)}"
+        res = {b: _eval_bit_term(t, {want_field: b}) for b in (0, 1)}
+        return all(bool(res[b]) == bool(b) for b in (0, 1)), f"wire bit 0->{res[0]!r}, 1->{res[1]!r}; the bit was packed as the truthiness of self.{want_field}"
     # decode_connection_type(index(encode(field), 0), index(encode(field), 1)) over the documented domain
     if t.op == "call" and t.args[0] == "decode_connection_type" and len(t.args) == 3:
         a0, a1 = t.args[1], t.args[2]
@@ -275,9 +518,15 @@ def enumerate_equal(ctx: Ctx, cls: ClassInfo, t: T, want_field: str, wire_terms:
         e0, e1 = enc_idx(a0), enc_idx(a1)
         if e0 and e1 and e0[0] == e1[0] and e0[0].op == "field" and (e0[1], e1[1]) == (0, 1):
             m = ctx.repo.module("ipv8/messaging/payload.py")
-            enc, dec = PureFn(m.functions["encode_connection_type"]), PureFn(m.functions["decode_connection_type"])
+            enc, dec = Mini(ctx.repo, m.functions["encode_connection_type"]), Mini(ctx.repo, m.functions["decode_connection_type"])
             domain = ["unknown", "public", "symmetric-NAT"]
-            bad = [v for v in domain if dec(*[1 if b else 0 for b in enc(v)]) != v]
+            try:
+                # the two bits travel through Bits.pack (truthiness) and Bits.unpack (1 / 0)
+                bad = [v for v in domain if dec(*[1 if b else 0 for b in enc(v)]) != v]
+            except MiniUndecided as e:
+                raise Undecided(f"connection type codec: {e}") from e
+            except MiniRaised as e:
+                return False, f"the connection type codec raises for a documented value: {e}"
             return (not bad and e0[0].args[0] == want_field), f"decode(encode(v)) == v for v in {domain}" + (f" fails for {bad}" if bad else "")
     return None
 
@@ -331,12 +580,12 @@ def rule_term_inverse(ctx: Ctx) -> None:
             continue
         env = dict(zip(params, wire))
         env["cls"] = T("cls", ())
-        ev = TermEval(repo, ful, env)
-        rets = [r for r in walk_no_nested(ful.node) if isinstance(r, ast.Return)]
-        if len(rets) != 1 or not isinstance(rets[0].value, ast.Call):
-            undecided_seen[f"{cls.name}.*"] = "from_unpack_list is not a single constructor call"
+        ev = _TermEval(repo, ful, env)
+        try:
+            call, argterms, kwterms = _decode_ctor(ev, ful)
+        except Undecided as u:
+            undecided_seen[f"{cls.name}.*"] = str(u)
             continue
-        call = rets[0].value
         callee = chain(call.func)
         target = cls if callee == "cls" else repo.resolve_class_expr(ful.module, call.func)
         if target is None:
@@ -350,7 +599,7 @@ def rule_term_inverse(ctx: Ctx) -> None:
                 ctx.check(False, "pack-unpack-inverse", ful, f"{cls.name} constructs {target.name}", f"{cls.name}: from_unpack_list constructs its own class",
                           f"{cls.name}.from_unpack_list constructs {target.name}: fields added by {cls.name} ({adds}) are lost")
         try:
-            fields = init_fields(ctx, target, [ev.ev(a) for a in call.args], {k.arg: ev.ev(k.value) for k in call.keywords})
+            fields = init_fields(ctx, target, argterms, kwterms)
         except Undecided as u:
             undecided_seen[f"{cls.name}.*"] = str(u)
             continue
@@ -387,7 +636,11 @@ def rule_term_inverse(ctx: Ctx) -> None:
             if why:
                 ctx.check(False, "pack-unpack-inverse", ful, f"{cls.name}.{f}", f"{cls.name}.{f} <- {got}", f"{cls.name}: decode(encode(p)).{f} != p.{f}: {why}")
                 continue
-            en = enumerate_equal(ctx, cls, n, f, {})
+            try:
+                en = enumerate_equal(ctx, cls, n, f, {})
+            except Undecided as u:
+                undecided_seen[f"{cls.name}.{f}"] = str(u)
+                continue
             if en is not None:
                 ctx.check(en[0], "pack-unpack-inverse", ful, f"{cls.name}.{f}", f"{cls.name}.{f} <- {got} ({en[1]})",
                           f"{cls.name}: decode(encode(p)).{f} != p.{f}: reconstructed as {got}; {en[1]}")
@@ -592,79 +845,133 @@ def rule_name_grammar(ctx: Ctx) -> None:
 
 # ------------------------------------------------------------------------------------------ bits / cell codec
 def rule_bit_order(ctx: Ctx) -> None:
+    """
+    'bits' = one byte, position 0 is the most significant bit (0x80) ... position 7 the least (0x01); a value is packed by its
+    truthiness.  Decided by evaluating Bits.pack / Bits.unpack (mini-interpreter over their AST, struct = trusted stdlib) on the
+    whole finite domain: all 256 bytes / all 256 bit tuples.  Independent of how the masks are spelled (eight statements, a loop,
+    a comprehension, shifts): only the input/output table counts.
+    """
     bits = ctx.repo.cls("Bits", SER)
     pk, un = bits.methods["pack"], bits.methods["unpack"]
-    pmask = {}
-    for s in walk_no_nested(pk.node):
-        if isinstance(s, ast.AugAssign) and isinstance(s.op, ast.BitOr) and isinstance(s.value, ast.IfExp):
-            t = s.value.test
-            if isinstance(t, ast.Subscript) and chain(t.value) == pk.node.args.vararg.arg:
-                pmask[const_value(t.slice)] = (const_value(s.value.body), const_value(s.value.orelse))
-    ulist = None
-    umask = {}
-    for s in walk_no_nested(un.node):
-        if isinstance(s, ast.Assign) and isinstance(s.value, ast.IfExp) and isinstance(s.value.test, ast.BinOp) and isinstance(s.value.test.op, ast.BitAnd):
-            m = const_value(s.value.test.left) if const_value(s.value.test.left) is not NOCONST else const_value(s.value.test.right)
-            umask[s.targets[0].id] = (m, const_value(s.value.body), const_value(s.value.orelse))
-        if isinstance(s, ast.AugAssign) and isinstance(s.value, ast.List) and chain(s.target) == un.params()[3]:
-            ulist = [norm(e) for e in s.value.elts]
-    ok = len(pmask) == 8 and ulist is not None and len(ulist) == 8
-    if ok:
+    me = Opaque("Bits instance")
+    run_pack, run_unpack = Mini(ctx.repo, pk, struct_hooks), Mini(ctx.repo, un, struct_hooks)
+
+    def do_pack(values):
+        try:
+            return run_pack(me, *values)
+        except MiniRaised as e:
+            return f"raises {e}"
+
+    def do_unpack(byte: int):
+        out: list = []
+        buf = b"\xa5" + bytes([byte]) + b"\x5a"         # the byte sits at offset 1, between two other bytes
+        try:
+            end = run_unpack(me, buf, 1, out)
+        except MiniRaised as e:
+            return f"raises {e}", None
+        return out, end
+    try:
         for pos in range(8):
             want = 0x80 >> pos
-            pm = pmask.get(pos)
-            um = umask.get(ulist[pos])
-            if pm != (want, 0) or um is None or um[0] != want or um[1:] != (1, 0):
-                ok = False
-                ctx.check(False, "bit-order", un, f"bit position {pos}", f"position {pos}: pack mask and unpack mask are {hex(want)}",
-                          f"'bits' position {pos}: pack uses mask {pm}, unpack yields `{ulist[pos]}` with mask {um}: documented order is bit 0 = 0x80 ... bit 7 = 0x01")
-            else:
-                ctx.instance("bit-order", un.where, f"position {pos}: mask {hex(want)} on both sides")
-    else:
-        ctx.check(False, "bit-order", pk, pk.node, "Bits packs/unpacks 8 positions", "Bits.pack/unpack do not handle exactly 8 positions")
-    b = [c for c in calls(pk, "pack")] + [c for c in calls(un, "unpack_from")]
-    ctx.check(len(b) == 2 and all(const_value(c.args[0]) == ">B" for c in b), "bit-order", pk, pk.node, "bits occupy one unsigned byte", "bits are no longer one unsigned byte")
+            onehot = [1 if i == pos else 0 for i in range(8)]
+            got_p = do_pack(onehot)
+            got_t = do_pack([v * 2 for v in onehot])         # any truthy value sets the bit ("anything that maps to it in an if-statement")
+            got_u, end = do_unpack(want)
+            ok = got_p == bytes([want]) and got_t == bytes([want]) and got_u == onehot and end == 2
+            ctx.check(ok, "bit-order", un, f"bit position {pos}", f"position {pos}: pack mask and unpack mask are {hex(want)}",
+                      f"'bits' position {pos}: pack(only bit {pos} set) gives {got_p!r} (truthy non-1 value: {got_t!r}), unpack({hex(want)}) yields {got_u} "
+                      f"and offset+{(end - 1) if isinstance(end, int) else '?'}: documented order is bit 0 = 0x80 ... bit 7 = 0x01, one byte")
+        bad_p, bad_u = [], []
+        for byte in range(256):
+            vals = [1 if byte & (0x80 >> i) else 0 for i in range(8)]
+            if do_pack(vals) != bytes([byte]) or do_pack([bool(v) for v in vals]) != bytes([byte]):
+                bad_p.append(byte)
+            if do_unpack(byte) != (vals, 2):
+                bad_u.append(byte)
+        ctx.check(not bad_p and not bad_u, "bit-order", pk, pk.node, "bits occupy one unsigned byte: pack/unpack agree with the documented table for all 256 values",
+                  f"Bits.pack/unpack disagree with the documented one-byte table for {len(bad_p)} packed / {len(bad_u)} unpacked values "
+                  f"(first: {[hex(b) for b in (bad_p or bad_u)[:4]]})")
+    except MiniUndecided as e:
+        raise AnalysisError(f"undecided: bit-order: {e}") from e
 
 
 def rule_cell_codec(ctx: Ctx) -> None:
+    """
+    Cell framing, decided by evaluating CellPayload.__init__/to_bin/from_bin/unwrap and TunnelCommunity.send_cell (mini-interpreter over
+    their AST, struct = trusted stdlib) on sample cells covering every flag combination: only what the functions compute counts, not how
+    the concatenation / header access is spelled.
+    """
     repo = ctx.repo
     PL = "ipv8/messaging/anonymization/payload.py"
     cp = repo.cls("CellPayload", PL)
-    tb, fb, uw = cp.methods["to_bin"], cp.methods["from_bin"], cp.methods["unwrap"]
-    pk = [c for c in calls(tb, "pack")]
-    up = [c for c in calls(fb, "unpack_from")]
-    ok = len(pk) == 1 and len(up) == 1 and const_value(pk[0].args[0]) == const_value(up[0].args[0])
-    fmt = const_value(pk[0].args[0]) if pk else None
-    ctx.check(ok, "cell-codec", tb, tb.node, f"cell header format {fmt!r} on both sides", "to_bin and from_bin use different header formats")
-    if ok:
-        off = const_value(arg(up[0], 2, "offset"))
-        size = struct.calcsize(fmt)
-        sl = [s for s in ast.walk(fb.node) if isinstance(s, ast.Subscript) and isinstance(s.slice, ast.Slice) and chain(s.value) == fb.params()[1]]
-        lo = const_value(sl[0].slice.lower) if sl else None
-        ctx.check(off == 23 and lo == off + size, "cell-codec", fb, fb.node, f"header at 23, message from {off + size if isinstance(off, int) else '?'}",
-                  f"from_bin reads the header at {off} and the message from {lo}: must be 23 and 23 + {size}")
-        order = [norm(a) for a in pk[0].args[1:]]
-        tgt = [s for s in walk_no_nested(fb.node) if isinstance(s, ast.Assign) and isinstance(s.targets[0], ast.Tuple) and s.value is up[0]]
-        names = [norm(e) for e in tgt[0].targets[0].elts] if tgt else []
-        ret = [r for r in walk_no_nested(fb.node) if isinstance(r, ast.Return)][0].value
-        ctor = [norm(a) for a in ret.args] if isinstance(ret, ast.Call) else []
-        ip = [p for p in cp.methods["__init__"].params()[1:]]
-        ok2 = order == ["self.circuit_id", "self.plaintext", "self.relay_early"] and names == ["circuit_id", "plaintext", "relay_early"] \
-            and ip == ["circuit_id", "message", "plaintext", "relay_early"] and len(ctor) == 4 and ctor[0] == "circuit_id" and ctor[2:] == ["plaintext", "relay_early"]
-        ctx.check(ok2, "cell-codec", fb, fb.node, "header fields (circuit_id, plaintext, relay_early) in the same order on both sides",
-                  f"cell header field order differs: packs {order}, unpacks {names}, constructs {ctor}")
-        j = [norm(e) for c in calls(tb) if call_name(c) == "join" for e in c.args[0].elts] if calls(tb) else []
-        ctx.check(len(j) == 3 and j[0] == tb.params()[1] and j[1] == "bytes([self.msg_id])" and j[2].endswith("+ self.message"), "cell-codec", tb, tb.node,
-                  "cell = prefix + msg_id + header + message", f"to_bin layout changed: {j}")
-    # unwrap <-> TunnelCommunity.send_cell ([4:] strips the circuit id, msg id goes first)
-    ju = [norm(e) for c in calls(uw) if call_name(c) == "join" for e in c.args[0].elts]
-    ok = ju == [uw.params()[1], "self.message[0:1]", "pack('!I', self.circuit_id)", "self.message[1:]"]
-    sc = repo.method("TunnelCommunity", "send_cell", "ipv8/messaging/anonymization/community.py")
-    msg = single_def(sc, "message")
-    ok2 = msg is not None and norm(msg[0]) == "self.serializer.pack_serializable(payload)[4:]" and any(
-        norm(c) == "CellPayload(payload.circuit_id, pack('!B', payload.msg_id) + message)" for c in calls(sc, "CellPayload"))
-    ctx.check(ok and ok2, "cell-codec", uw, uw.node, "unwrap re-inserts the 4-byte circuit id exactly where send_cell stripped it (after the msg id)",
-              f"send_cell / unwrap disagree on where the circuit id sits: unwrap builds {ju}")
+    tb, fb, uw, init = cp.methods["to_bin"], cp.methods["from_bin"], cp.methods["unwrap"], cp.methods["__init__"]
+    msg_id = repo.resolve_const(cp.module, cp.attrs["msg_id"]) if "msg_id" in cp.attrs else NOCONST
+    ctx.anchor(isinstance(msg_id, int), "CellPayload.msg_id constant")
+    cls_token = Opaque("class CellPayload", {"msg_id": msg_id})
+    fields = ("circuit_id", "message", "plaintext", "relay_early")
+
+    def hooks(name, base, args, kwargs):
+        if base is cls_token or (base is None and name == "CellPayload"):
+            o = Opaque("CellPayload instance", {"msg_id": msg_id})
+            Mini(repo, init, hooks)(o, *args, **kwargs)
+            return o
+        return struct_hooks(name, base, args, kwargs)
+
+    def attempt(f, *a):
+        try:
+            return f(*a)
+        except MiniRaised as e:
+            return f"raises {e}"
+    prefix = bytes(range(0x30, 0x30 + 22))          # version, service id, ...: the 22 bytes before the message id
+    samples = [(cid, msg, pt, re_) for cid in (0, 1, 0x01020304, 0xFFFFFFFF) for msg in (b"", b"\x07", b"\x07tunnel payload") for pt in (False, True) for re_ in (False, True)]
+    try:
+        bad_layout, bad_round = [], []
+        for cid, msg, pt, re_ in samples:
+            cell = hooks("CellPayload", None, [cid, msg, pt, re_], {})
+            wire = attempt(Mini(repo, tb, hooks), cell, prefix)
+            want = prefix + bytes([msg_id]) + struct.pack("!I??", cid, pt, re_) + msg
+            if wire != want:
+                bad_layout.append(((cid, msg, pt, re_), wire))
+                continue
+            back = attempt(Mini(repo, fb, hooks), cls_token, wire)
+            got = tuple(back.attrs.get(f) for f in fields) if isinstance(back, Opaque) else back
+            if got != (cid, msg, pt, re_):
+                bad_round.append(((cid, msg, pt, re_), got))
+        ctx.check(not bad_layout, "cell-codec", tb, tb.node, "cell = prefix + msg_id + header '!I??' (circuit_id, plaintext, relay_early) at byte 23 + message",
+                  f"to_bin layout changed: for (circuit_id, message, plaintext, relay_early) = {bad_layout[0][0] if bad_layout else ''} it gives {bad_layout[0][1] if bad_layout else ''!r}, "
+                  "documented: prefix + msg_id + pack('!I??', circuit_id, plaintext, relay_early) + message")
+        ctx.check(not bad_round, "cell-codec", fb, fb.node, "from_bin(to_bin(cell)) restores circuit_id, message, plaintext, relay_early for every sample cell",
+                  f"from_bin is not the inverse of to_bin: cell {bad_round[0][0] if bad_round else ''} comes back as {bad_round[0][1] if bad_round else ''} "
+                  "(header field order / offsets 23 and 29 differ between the two sides)")
+        # unwrap <-> TunnelCommunity.send_cell: send_cell strips the 4-byte circuit id off the packed payload and puts the msg id first;
+        # unwrap must give back  prefix + msg id + the packed payload  (circuit id re-inserted right after the msg id)
+        sc = repo.method("TunnelCommunity", "send_cell", "ipv8/messaging/anonymization/community.py")
+        bad_unwrap = []
+        for cid in (1, 0x01020304):
+            for mid in (2, 9):
+                body = b"\x00\x11\x22\x33\x44"
+                packed = struct.pack("!I", cid) + body           # every cellable payload starts with circuit_id:'I' (checked below)
+                payload = Opaque("payload", {"circuit_id": cid, "msg_id": mid})
+                sent = []
+
+                def sc_hooks(name, base, args, kwargs, payload=payload, packed=packed, sent=sent):
+                    if name is not None and name.endswith(".pack_serializable") and args == [payload]:
+                        return packed
+                    if name is not None and name.endswith(".send_cell") and len(args) == 2:
+                        sent.append(args[1])
+                        return None
+                    return hooks(name, base, args, kwargs)
+                me = Opaque("TunnelCommunity", {"serializer": Opaque("serializer"), "crypto_endpoint": Opaque("crypto_endpoint")})
+                attempt(Mini(repo, sc, sc_hooks), me, Opaque("address"), payload)
+                cell = sent[0] if len(sent) == 1 and isinstance(sent[0], Opaque) else None
+                plain = attempt(Mini(repo, uw, hooks), cell, prefix) if cell is not None else "send_cell hands no cell to the crypto endpoint"
+                if plain != prefix + bytes([mid]) + packed or cell.attrs.get("circuit_id") != cid:
+                    bad_unwrap.append(((cid, mid), plain))
+        ctx.check(not bad_unwrap, "cell-codec", uw, uw.node, "unwrap re-inserts the 4-byte circuit id exactly where send_cell stripped it (after the msg id)",
+                  f"send_cell / unwrap disagree on where the circuit id sits: for (circuit_id, msg_id) = {bad_unwrap[0][0] if bad_unwrap else ''} unwrap gives "
+                  f"{bad_unwrap[0][1] if bad_unwrap else ''!r}, not prefix + msg_id + pack_serializable(payload)")
+    except MiniUndecided as e:
+        raise AnalysisError(f"undecided: cell-codec: {e}") from e
     # every cellable payload starts with the circuit id as "I"
     base = repo.cls("CellablePayload", PL)
     n = 0
@@ -750,6 +1057,18 @@ WITNESSES = [
      "old": "        size, = unpack_from(\">H\", data, offset)\n        offset += 2", "new": "        size, = unpack_from(\">H\", data, offset)\n        offset += 1"},
     {"name": "bit masks permuted on unpack", "file": "ipv8/messaging/serialization.py", "rule": "bit-order",
      "old": "        bit_1 = 1 if 0x02 & byte else 0\n        bit_0 = 1 if 0x01 & byte else 0", "new": "        bit_1 = 1 if 0x01 & byte else 0\n        bit_0 = 1 if 0x02 & byte else 0"},
+    {"name": "Address: IPv6 tag decoded through the IPv4 conversion for mapped addresses", "file": "ipv8/messaging/serialization.py", "rule": "packer-symmetry",
+     "old": "            unpack_list.append(UDPv6Address(socket.inet_ntop(socket.AF_INET6, ip_bytes), port))\n",
+     "new": "            if ip_bytes[:12] == bytes(10) + b\"\\xff\\xff\":\n                unpack_list.append(UDPv4Address(socket.inet_ntop(socket.AF_INET, ip_bytes[12:]), port))\n"
+            "            else:\n                unpack_list.append(UDPv6Address(socket.inet_ntop(socket.AF_INET6, ip_bytes), port))\n"},
+    {"name": "tb_overlap count decoded in native byte order", "file": _PP, "rule": "pack-unpack-inverse",
+     "old": "unpack(\">I\", tb_overlap[i + 20:i + 24])[0]", "new": "unpack(\"I\", tb_overlap[i + 20:i + 24])[0]"},
+    {"name": "tb_overlap decoded with iter_unpack in little-endian", "rule": "pack-unpack-inverse", "edits": [
+        {"file": _PP, "old": "from struct import pack, unpack\n", "new": "from struct import iter_unpack, pack, unpack\n"},
+        {"file": _PP, "old": "[(tb_overlap[i:i + 20], unpack(\">I\", tb_overlap[i + 20:i + 24])[0])\n                                          for i in range(0, len(tb_overlap), 24)])",
+         "new": "list(iter_unpack(\"<20sI\", tb_overlap)))"}]},
+    {"name": "bit packed by value instead of truthiness", "file": "ipv8/messaging/serialization.py", "rule": "bit-order",
+     "old": "        byte |= 0x02 if data[6] else 0x00\n", "new": "        byte |= (data[6] << 1) & 0x02\n"},
     {"name": "cell header format differs", "file": _AP, "rule": "cell-codec",
      "old": "        circuit_id, plaintext, relay_early = unpack_from(\"!I??\", packet, 23)\n        return cls(circuit_id, packet[29:], plaintext, relay_early)",
      "new": "        circuit_id, relay_early, plaintext = unpack_from(\"!I??\", packet, 23)\n        return cls(circuit_id, packet[29:], plaintext, relay_early)"},
